@@ -43,6 +43,10 @@ func (bc *Config) Backoff(attempt uint) time.Duration {
 	backoff, max := float64(bc.BaseDelay), float64(bc.MaxDelay)
 	backoff *= math.Pow(bc.Multiplier, float64(attempt))
 	backoff = math.Min(backoff, max)
+	if math.IsNaN(backoff) || backoff < 0 {
+		// e.g. a zero BaseDelay multiplied by an overflowed (+Inf) power
+		return 0
+	}
 	// Randomize the backoff delay
 	r := rand.New(rand.NewSource(time.Now().UnixNano()))
 	backoff *= 1 + bc.Jitter*(r.Float64()*2-1)
